@@ -45,4 +45,12 @@ PROPS = {
         "trusted_base": ["serde (de)serialisation of JwsHeader (flatten/custom map) — correspondence only", "WF domain of validate_iff: custom map does not name `alg`/`b64` (those two shadowings are outside the theorem and outside the oracle)"],
         "assumptions": [],
     },
+    "C13": {
+        "translate": True,
+        "diff_is_violation": ["parse", "unix", "add", "sub", "cmp"],
+        "trivial": ["bad-request", "err"],
+        "rule": "streams: (1) corpus; (2) both range ends +- {0,1,59,60,3599,3600,86399,86400,86401} s expressed at every UTC offset -23..+23 h x minutes {0,1,30,59} (thorough: every minute); fraction forms x separator bytes x offset spellings (valid and malformed); month/day limits for 12 years incl. century years x months 0..13 x days 0..32; field-range violations and leap-second candidates (month ends, mid-month, at offsets); truncations and single-byte edits of a valid string; (3) 10^4 (thorough 2*10^5) uniformly random instants with random offset+fraction; unix seconds at/around both ends, year/century/era boundaries, time-crate limits, random i64; checked_add/sub with every Duration constructor at 0,1,2,59,60,u32::MAX-1,u32::MAX and values landing within +-2 s of both ends, random; Ord on random pairs. Non-trivial = reply not err/bad-request; distinct request lines.",
+        "trusted_base": ["the `time` crate (RFC 3339 parser transliterated into the model; calendar replaced by a proved proleptic Gregorian model) — tied by correspondence", "serde glue of Timestamp (JSON round trip exercised by the oracle on every accepted value)", "a Timestamp is modelled as its unix second count, so Ord = order of unix seconds holds by construction in the model and is tied to the code by the cmp stream only"],
+        "assumptions": [],
+    },
 }
